@@ -24,8 +24,10 @@ def run(report, tier):
     thorough = tier == "thorough"
     report.assumptions += [
         "Lark implements its documented scanner semantics (model replayed on the real scanner for every witness)",
-        "a symbolic user-registered name is out of reach (re.escape / sorted / join realise it): registered names are "
-        "adversarial concrete families; the text after the name stays symbolic",
+        "a symbolic user-registered name cannot be carried through re.escape / sorted / join by CrossHair; instead the real callback is "
+        "run with a marker name of each length and the marker's literal characters in the resulting MODEL_NAME alternation are replaced by "
+        "z3 integers (engine/symname.py): position in the alternation, escaping and word boundary are the real ones, the name is symbolic; "
+        "concrete adversarial families are kept as a cross-check; names are registered in one call for these lemmas",
         "F14d/F14e classes (non-word character at the model-name boundary) are known findings and excluded from the lemmas after "
         "the solver has exhibited a member",
     ]
@@ -33,6 +35,9 @@ def run(report, tier):
     fams = QUICK_FAMILIES + (thorough_families() if thorough else [])
     for i, fam in enumerate(fams):
         decsweep.lemmas(report, extra=fam, kinds=("model", "word"), label=f"family {i}: {', '.join(fam[:4])}...")
+    # a symbolic registered name of every length up to the bound (the solver looks for the colliding names itself)
+    from engine import symname
+    symname.run(report, lengths=tuple(range(1, 11 if thorough else 7)))
     # the trailing-dash class needs a registered name to show
     decsweep.lemmas(report, extra=("MY-", "PHSP-"), kinds=("model",), label="registered names ending in '-'")
     t = 900 if thorough else 420
